@@ -76,6 +76,10 @@ Section Impl.
   Definition decompress (s : bytes) : res bytes :=
     let '(w, d, m) := zip_request s in zip_post (zdec w d m).
 
+  (* a history of calls: every call builds its own zlib.decompressobj, nothing is
+     carried from one call to the next *)
+  Definition decompress_seq (l : list bytes) : list (res bytes) := map decompress l.
+
   (* the same with the log of zlib calls *)
   Definition decompressL (s : bytes) : res bytes * list ev :=
     let '(w, d, m) := zip_request s in (zip_post (zdec w d m), [EvInflate w d m]).
